@@ -217,6 +217,21 @@ pub fn run(a: &Args) -> Collector {
                     if let Out::Panic(msg) = &out {
                         c.fail("frame", "oracle", "frame|damage-panic", dcase.clone(), msg.clone());
                     }
+                    // memory: whatever a damaged frame yields is exactly what its compressed part inflates to — never bytes
+                    // that were not produced by the decompressor (C19: only initialised data taken from the input)
+                    if let Out::Ok((got, _)) = &out {
+                        let mut sl = SliceInput::new(&m);
+                        if let (Ok(_n), Ok(cl)) = (sl.read_var_u32(), sl.read_var_u32()) {
+                            let from = sl.pos;
+                            if let Some(z) = m.get(from..from + cl as usize) {
+                                match real_inflate(z) {
+                                    Some(x) if &x == got => c.stat("damaged-output-is-inflate-output"),
+                                    Some(x) => c.fail("memory", "oracle", "frame|foreign-bytes", dcase.clone(), format!("returned {} bytes, the compressed part inflates to {} bytes: the result contains bytes that did not come from the input", got.len(), x.len())),
+                                    None => c.fail("memory", "oracle", "frame|foreign-bytes", dcase.clone(), format!("returned {} bytes although the compressed part does not inflate", got.len())),
+                                }
+                            }
+                        }
+                    }
                     if alloc > std::cmp::max(65_536, 2 * produced) + 65_536 + m.len() {
                         c.fail("frame-alloc", "oracle", "frame|damage-alloc", dcase.clone(), format!("largest single allocation request {} bytes, produced {}", alloc, produced));
                     }
